@@ -139,9 +139,9 @@ func newV2(prefix string, ct *Controllers) (cg Cgroup, err error) {
 		path:    filepath.Join(basePath, prefix),
 		control: ct,
 	}
-	if _, err := os.Stat(v2.path); err == nil {
-		v2.existing = true
-	}
+	// whether the group was created here is decided by the mkdir of its own directory below,
+	// not by a look before it: of two concurrent callers only one makes it
+	v2.existing = true
 	defer func() {
 		if err != nil && !v2.existing {
 			remove(v2.path)
@@ -160,7 +160,11 @@ func newV2(prefix string, ct *Controllers) (cg Cgroup, err error) {
 		current = current + "/" + e
 		// try mkdir if not exists
 		if _, err := os.Stat(filepath.Join(basePath, current)); os.IsNotExist(err) {
-			if err := os.Mkdir(filepath.Join(basePath, current), dirPerm); err != nil {
+			if err := os.Mkdir(filepath.Join(basePath, current), dirPerm); err == nil {
+				if filepath.Join(basePath, current) == v2.path {
+					v2.existing = false
+				}
+			} else if !os.IsExist(err) {
 				return nil, err
 			}
 		} else if err != nil {
